@@ -10,6 +10,7 @@ import (
 	"path/filepath"
 	"sort"
 	"strings"
+	"sync/atomic"
 	"syscall"
 	"testing"
 
@@ -84,7 +85,8 @@ func vfMaterialise(dir string, args []vfArg) ([]string, error) {
 			content += "\n"
 		}
 		if a.Fifo {
-			path += ".fifo"
+			// (a name of its own for every pipe ever made: a writer that is late must not meet the reader of a later case)
+			path = filepath.Join(dir, fmt.Sprintf("patterns-%d-%d.txt.fifo", i, vfFifoSeq.Add(1)))
 			_ = os.Remove(path)
 			if err := syscall.Mkfifo(path, 0o644); err != nil {
 				return nil, err
@@ -103,6 +105,8 @@ func vfMaterialise(dir string, args []vfArg) ([]string, error) {
 	}
 	return out, nil
 }
+
+var vfFifoSeq atomic.Int64
 
 // vfReleaseFifos unblocks writers of named pipes nobody opened.
 func vfReleaseFifos(args []string) {
